@@ -78,6 +78,7 @@ class Analysis:
     def __init__(self, model, fn, summaries, ro_armed=True):
         self.model, self.fn, self.summ, self.ro_armed = model, fn, summaries, ro_armed
         self.env, self.kind = {}, {}
+        self.ctor_calls = []            # (line, class, {constructor parameter: abstract objects passed})
         self.mut = set()        # (root object, node lineno, construct, via)
         self.direct = set()     # parameters whose OWN top level is written (not merely something reachable from them)
         self.lost = []          # (lineno, construct)
@@ -339,6 +340,17 @@ class Analysis:
                 init = self.model.lookup_method(tgt, '__init__')
                 if init is not None:
                     self.apply_summary(init.qual, [{F}] + argobjs, kwobjs, n, stars)
+                    # which objects reach which constructor parameter (a starred argument may supply any parameter still unbound)
+                    ps = [p for p in init.params if p != 'self']
+                    plain = [a for a, node_ in zip(argobjs, n.args) if not isinstance(node_, ast.Starred)] if not any(isinstance(x, ast.Starred) for x in n.args) else []
+                    bind = {p_: set(self.expand(a)) for p_, a in zip(ps, plain)}
+                    bind.update({k_: set(self.expand(v)) for k_, v in kwobjs.items()})
+                    for d in stars + [a for a, node_ in zip(argobjs, n.args) if isinstance(node_, ast.Starred)] + \
+                            ([a for a, node_ in zip(argobjs, n.args) if not isinstance(node_, ast.Starred)] if any(isinstance(x, ast.Starred) for x in n.args) else []):
+                        for p_ in ps + init.kwonly:
+                            if p_ not in bind:
+                                bind[p_] = {y for x in self.expand(d) for y in ([x] if x[0] != 'Lit' else list(x[1]))}
+                    self.ctor_calls.append((n.lineno, tgt, bind))
                 kids = set()
                 for a in argobjs + list(kwobjs.values()):
                     kids |= {x for x in self.expand(a) if x != F}
